@@ -283,6 +283,10 @@ def gen_plan(seed, tier="quick", variant=None):
         ops.append({"op": "stop", "on": [what, k], "delay": rng.choice([0.01, 0.03])})
         ops.append({"t": round(1.0 + rng.random(), 6), "op": "start", "start": rng.choice(["latest", "latest", "num"]), "start_rel": 0})
         proc = []
+    if rng.random() < 0.15:
+        # ... and restarting the consumer from inside the start Deferred's callback (fired by stop(), or by a failure)
+        ops.append({"op": "start", "on": ["start_result", rng.choice([0, 0, 1])], "start": rng.choice(["num", "earliest", "committed" if cons["group"] else "latest"]),
+                    "start_rel": rng.randint(0, 6)})
     if cons["group"] and any(o["op"] == "commit" for o in ops) and rng.random() < 0.5:
         # the application reacting to the result of a commit() from inside that Deferred's callback
         for _ in range(rng.choice([1, 1, 2])):
@@ -445,11 +449,11 @@ def _run(w, plan):
     proc_spec = {}
     for p in plan["proc"]:
         proc_spec.setdefault(p["n"], p)
-    triggers = {"proc": {}, "fetch": {}, "commit": {}, "commit_result": {}}
+    triggers = {"proc": {}, "fetch": {}, "commit": {}, "commit_result": {}, "start_result": {}}
     for o in plan["ops"]:
         if "on" in o:
             triggers[o["on"][0]].setdefault((o["on"][1],) + tuple(o["on"][2:]), []).append(o)
-    counters = {"fetch": 0, "commit": 0, "commit_result": 0}
+    counters = {"fetch": 0, "commit": 0, "commit_result": 0, "start_result": 0}
 
     def on_request(entry):
         if entry["key"] == kwire.FETCH:
@@ -520,6 +524,13 @@ def _run(w, plan):
     def on_start_fire(s, wd):
         s["start_fire_seq"] = wd.seq
         s["start_fire_in_stop"] = bool(state.get("in_stop"))
+        # the application restarting the consumer from inside the callback that told it the consumer had ended
+        k_ = counters["start_result"]
+        counters["start_result"] += 1
+        for o2 in triggers["start_result"].pop((k_,), ()):
+            res.probe("start_from_inside_the_start_callback" + ("_in_stop" if state.get("in_stop") else ""))
+            s["restarted_from_callback"] = True
+            do_op(o2)
         s["lpo_at_fire"] = incs[s["inc"]].consumer.last_processed_offset
 
     def cur_session(inc):
@@ -798,6 +809,8 @@ def _run(w, plan):
         s["stop_seq"] = len(sim.log)
         s["stop_t"] = sim.now
         left = [dc for dc in w.reactors[inc.pid].pending() if dc.sim_creator.startswith("consumer.py")]
+        if cur_session(inc) is not s:
+            left = []  # restarted from inside the start Deferred's callback, i.e. inside this stop(): the new run's timers
         if left:
             res.violate("C13", "C13:timer-left-after-stop:%s" % left[0].sim_fname,
                         "after %s returned the consumer still holds timers %r" % (how, [(dc.sim_creator, dc.sim_fname) for dc in left]), sim)
@@ -922,6 +935,8 @@ def _run(w, plan):
         if inc is None or not inc.alive:
             return
         s = cur_session(inc)
+        for tr in triggers.values():
+            tr.clear()  # the workload is over: the final stop must not set off a planned reaction (a restart, say)
         if s is not None and not s["stopped"]:
             do_op({"op": "stop"})
 
